@@ -12,7 +12,9 @@ var ntNames = []string{"expr", "stmt", "list", "item", "opt", "tail", "prog", "d
 	"A", "B", "C", "D", "E", "S", "L", "R", "n1", "n_2", "Xs", "block", "seq"}
 
 // literal characters yaccgo can lex as 'c' and that are safe in every generated context we know to be intended
-var LitPool = []byte("+-*/()<>=,;:!&|^~?.[]{}@#ab0%\"'$`_Z9")
+// (the single quote itself is left out: yaccgo lexes it as the three characters '\' without a closing quote, which no
+// document describes; what the "right" spelling is, is not pinned by any property)
+var LitPool = []byte("+-*/()<>=,;:!&|^~?.[]{}@#ab0%\"$`_Z9")
 
 func uniqueNames(r *rng.R, pool []string, n int) []string {
 	p := r.Perm(len(pool))
